@@ -625,8 +625,15 @@ func c09FileMode(ctx *core.Ctx, valid []Text, inv []InvalidText) int {
 	}
 	var jobs []job
 	for i, t := range valid {
+		if strings.HasPrefix(t.Name, "special/") && t.Raw != "" {
+			// the special texts as written (long lines, unusual characters): what reads the file must cope with them
+			jobs = append(jobs, job{t.Name, t.Raw, true})
+			continue
+		}
 		if i%97 == 0 || strings.HasPrefix(t.Name, "repo/") {
 			jobs = append(jobs, job{t.Name, dsl.Render(t.Toks, dsl.Pretty), true})
+			// a layout that is longer than its formatted text (the rewritten file shrinks)
+			jobs = append(jobs, job{t.Name + " (ragged layout)", dsl.Render(t.Toks, dsl.Ragged), true})
 		}
 	}
 	for i, t := range inv {
